@@ -20,6 +20,7 @@ DIRECT = ['fast', 'slow', 'refused', 'hang', 'init-fail', 'no-address']
 INDIRECT = ['pierce-fast', 'pierce-slow', 'cannot', 'nothing', 'server-down']
 
 _creator_hook = False
+_registry_checks = [0]
 _creators: dict = {}
 
 
@@ -45,6 +46,7 @@ def registry_check(w: World, handle, viol: list, label: str) -> int:
     """At a quiescent moment: registry == connections that are open or being
     opened by a still-running attempt (ground truth: SimNet endpoints)."""
     net = handle.client.network
+    _registry_checks[0] += 1
     registered = list(net.peer_connections)
     open_trs = [tr for tr in w.net.open_transports(owner=handle.name) if tr.conn.port != w.server.port]
     reg_trs = {}
@@ -174,7 +176,7 @@ def run_c11_case(res: dict, params: dict, seed: Any, judge_c10: bool = False, ju
                 task.cancel()
                 cancelled = True
         elif p['cancel'] == 'time':
-            await asyncio.sleep(p['cancel_t'])
+            await asyncio.wait({task}, timeout=p['cancel_t'])
             if not task.done():
                 task.cancel()
                 cancelled = True
@@ -309,6 +311,8 @@ def run_c11_case(res: dict, params: dict, seed: Any, judge_c10: bool = False, ju
         runner.violation(res, 'safety:' + sig, **detail)
     for k, v in obs.items():
         runner.add_obs(res, k, v)
+    runner.add_obs(res, 'registry_checks', _registry_checks[0])
+    _registry_checks[0] = 0
     for k, v in cm.counters.items():
         runner.add_obs(res, k, v)
     r = out.result
@@ -455,6 +459,8 @@ def run_connect_back_case(res: dict, rng: random.Random, seed: Any, judge_c10: b
         runner.violation(res, 'safety:' + sig, **detail)
     for k, v in obs.items():
         runner.add_obs(res, k, v)
+    runner.add_obs(res, 'registry_checks', _registry_checks[0])
+    _registry_checks[0] = 0
     for k, v in cm.counters.items():
         runner.add_obs(res, k, v)
     res['csigs'].append(f"cb|{[(r['behaviour'], r['typ'], r['ports']) for r in reqs]}|{prefer_obf}|{out.result}")
@@ -465,3 +471,202 @@ def run_connect_back_case(res: dict, rng: random.Random, seed: Any, judge_c10: b
 
 def _pub(r: dict) -> dict:
     return {k: v for k, v in r.items() if k != 'peer'}
+
+
+# ---------------------------------------------------------------------------
+# C10: endings of established / half-established connections
+
+IN_INITS = ['good', 'eof-before-init', 'rst-before-init', 'silent', 'garbage', 'unknown-code', 'partial-then-eof',
+            'unknown-pierce-ticket', 'good-then-immediate-eof']
+ENDINGS = ['local-1', 'local-2', 'local-3', 'remote-eof', 'remote-rst', 'read-timeout', 'write-timeout',
+           'local-and-remote', 'stop-client']
+
+
+def run_c10_endings_case(res: dict, rng: random.Random, seed: Any):
+    install_creator_hook()
+    cm = ConnMonitor()
+    viol: list = []
+    obs = {'endings_judged': 0, 'registry_items': 0, 'send_after_closed_checks': 0, 'conns_judged': 0}
+    n_conns = rng.randint(1, 3)
+    specs = []
+    for _ in range(n_conns):
+        direction = rng.choice(['in', 'in', 'out'])
+        specs.append({
+            'direction': direction,
+            'obf': rng.random() < 0.4,
+            'typ': rng.choice(['P', 'P', 'D', 'F']),
+            'init': rng.choice(IN_INITS) if direction == 'in' else 'good',
+            'ending': rng.choice(ENDINGS),
+            'gap': rng.choice([0.0, 0.01, 0.5]),
+        })
+
+    async def main(w: World):
+        from aioslsk.exceptions import ConnectionWriteError, PeerConnectionError
+        from aioslsk.network.connection import CloseReason, ConnectionState
+        from aioslsk.network.network import PeerConnectMode
+        from aioslsk.protocol.messages import PeerPierceFirewall, PeerUserInfoRequest
+        await w.start_server()
+        me = await w.add_client('me')
+        me.client.settings.network.peer.connect_mode = PeerConnectMode.FALLBACK
+        net = me.client.network
+        bobs = []
+        for k, sp in enumerate(specs):
+            bob = await w.add_peer(f'b{k}')
+            bobs.append(bob)
+        await settle(0.3)
+        results = []
+        for k, sp in enumerate(specs):
+            bob = bobs[k]
+            if sp['gap']:
+                await asyncio.sleep(sp['gap'])
+            conn = None
+            link = None
+            before = set(id(c) for c in cm.conns.values())
+            if sp['direction'] == 'out':
+                me.client.settings.network.peer.obfuscate = sp['obf']
+                try:
+                    conn = await me.call(net.create_peer_connection(bob.name, sp['typ']))
+                except PeerConnectionError:
+                    conn = None
+                if conn is not None:
+                    tr = conn._writer.transport
+                    for _ in range(100):
+                        link = next((l for l in bob.links if l.conn is tr.conn), None)
+                        if link is not None and link.init is not None:
+                            break
+                        await asyncio.sleep(0.01)
+            else:
+                port = me.obf_port if sp['obf'] else me.port
+                init = sp['init']
+                kw = dict(host=w.net.ip_of('me'), obfuscated=sp['obf'], manual=True)
+                if init in ('good', 'good-then-immediate-eof'):
+                    link = await bob.dial(port, sp['typ'], **kw)
+                    if init == 'good-then-immediate-eof':
+                        link.close()
+                elif init == 'eof-before-init':
+                    link = await bob.dial(port, sp['typ'], init=None, **kw)
+                    link.close()
+                elif init == 'rst-before-init':
+                    link = await bob.dial(port, sp['typ'], init=None, **kw)
+                    link.abort()
+                elif init == 'silent':
+                    link = await bob.dial(port, sp['typ'], init=None, **kw)
+                elif init == 'garbage':
+                    link = await bob.dial(port, sp['typ'], init=None, **kw)
+                    body = rng.randbytes(rng.randint(1, 40))
+                    link.send_raw(link.encode(len(body).to_bytes(4, 'little') + body))
+                elif init == 'unknown-code':
+                    link = await bob.dial(port, sp['typ'], init=None, **kw)
+                    link.send_raw(link.encode((5).to_bytes(4, 'little') + b'\x09' + b'abcd'))
+                elif init == 'partial-then-eof':
+                    link = await bob.dial(port, sp['typ'], init=None, **kw)
+                    link.send_raw(b'\x20\x00\x00')
+                    await asyncio.sleep(0.01)
+                    link.close()
+                elif init == 'unknown-pierce-ticket':
+                    link = await bob.dial(port, sp['typ'], init='pierce', ticket=999999, **kw)
+                await settle(0.2)
+                # the client's connection object for this link
+                for c in list(net.peer_connections) + [v for v in cm.conns.values()]:
+                    wr = getattr(c, '_writer', None)
+                    if wr is not None and wr.transport.conn is link.conn:
+                        conn = c
+                        break
+            established = (conn is not None and conn.state == ConnectionState.CONNECTED and
+                           sp['init'] in ('good',))
+            ending = sp['ending'] if established else 'none'
+            if established:
+                obs['endings_judged'] += 1
+                if sp['typ'] == 'F' and sp['direction'] == 'out':
+                    # a file connection has no reader task: whoever asked for it reads from it
+                    # (as _initialize_upload does); without a reader nobody can notice a remote close
+                    async def file_reader(c=conn):
+                        try:
+                            await c.receive_transfer_offset()
+                        except Exception:  # noqa
+                            pass
+                    w.spawn('me', file_reader(), name='vf-file-reader')
+                    await asyncio.sleep(0)
+                if ending.startswith('local-') and ending != 'local-and-remote':
+                    n = int(ending[-1])
+                    await asyncio.gather(*[me.call(conn.disconnect(CloseReason.REQUESTED)) for _ in range(n)])
+                elif ending == 'remote-eof':
+                    link.close()
+                elif ending == 'remote-rst':
+                    link.abort()
+                elif ending == 'read-timeout':
+                    if sp['typ'] == 'F':
+                        link.close()      # file connections have no idle read timeout while negotiating
+                    else:
+                        await asyncio.sleep(61.0)
+                elif ending == 'write-timeout':
+                    link.stop_reading()
+                    blob = bytes(8192)
+                    try:
+                        for _ in range(60):
+                            await me.call(conn.send_message((len(blob) + 4).to_bytes(4, 'little') + (999).to_bytes(4, 'little') + blob))
+                    except ConnectionWriteError:
+                        pass
+                    await asyncio.sleep(1.0)
+                elif ending == 'local-and-remote':
+                    link.close()
+                    await asyncio.gather(me.call(conn.disconnect(CloseReason.REQUESTED)),
+                                         me.call(conn.disconnect(CloseReason.REQUESTED)))
+                elif ending == 'stop-client':
+                    pass
+            results.append((sp['direction'], sp['init'], ending, None if conn is None else conn.state.name))
+            if ending not in ('write-timeout',) and sp['init'] != 'silent':
+                await settle(0.5)
+                obs['registry_items'] += registry_check(w, me, viol, 'between-endings')
+            sp['_conn'] = conn
+            sp['_link'] = link
+        await settle(70.0)
+        obs['registry_items'] += registry_check(w, me, viol, 'after-endings')
+        # send after CLOSED must not put bytes on the wire and no message may be delivered after CLOSED
+        for sp in specs:
+            conn = sp.get('_conn')
+            if conn is None or conn.state != ConnectionState.CLOSED:
+                continue
+            link = sp['_link']
+            obs['send_after_closed_checks'] += 1
+            d = 'b2a' if link.conn.a is link.writer.transport else 'a2b'     # direction client -> peer
+            n0 = link.conn.written[d]
+            try:
+                await me.call(conn.send_message(PeerUserInfoRequest.Request()))
+            except Exception:  # noqa  (a refused send is fine)
+                pass
+            await settle(0.1)
+            if link.conn.written[d] != n0:
+                viol.append(('send-succeeded-after-closed', {'spec': _pub2(sp)}))
+        await w.stop_clients()
+        await settle(6.0)
+        return results
+
+    out = run_world(f'{seed}', main, wall_timeout=90, monitors=[cm])
+    if out.inconclusive:
+        res['inconclusive'] = out.inconclusive
+        return
+    cm.final_check(all_closed=True)
+    obs['conns_judged'] = cm.counters['conns_seen']
+    for sig, detail in viol:
+        runner.violation(res, sig, **detail)
+    for sig, detail in cm.violations:
+        runner.violation(res, sig, **detail)
+    for sig, detail in safety_net_violations(out):
+        runner.violation(res, 'safety:' + sig, **detail)
+    for k, v in obs.items():
+        runner.add_obs(res, k, v)
+    runner.add_obs(res, 'registry_checks', _registry_checks[0])
+    _registry_checks[0] = 0
+    for k, v in cm.counters.items():
+        runner.add_obs(res, k, v)
+    res['csigs'].append(f"end|{[(s['direction'], s['obf'], s['typ'], s['init'], s['ending']) for s in specs]}|{out.result}")
+    for s in specs:
+        runner.add_cover(res, 'c10_inits', f"{s['direction']}:{s['init']}")
+        runner.add_cover(res, 'c10_endings', s['ending'])
+    res['sample'] = {'kind': 'endings', 'specs': [_pub2(s) for s in specs], 'result': out.result,
+                     'streams': [[s[1] for s in st] for st in list(cm.streams.values())[:8]]}
+
+
+def _pub2(s: dict) -> dict:
+    return {k: v for k, v in s.items() if not k.startswith('_')}
